@@ -838,3 +838,23 @@ def previous_results(history, epoch):
                     worker = m.group(2) if m.group(1) == "localhost" else m.group(1) + "." + m.group(2)
                 out.append((test_class(r["name"]), worker, r["status"].lower()))
     return out
+
+
+# --------------------------------------------------------------------------------------------
+# C06, C09, C16: judged on the live graph during the run (travsim.graphcheck), collected here
+# --------------------------------------------------------------------------------------------
+
+def _graph_property(prop):
+    def check(history, **kw):
+        out = [v for v in history.get("graph_violations", []) if v["property"] == prop]
+        for ending in history["endings"]:
+            if ending["how"] == "raised" and ending.get("error_type") != "EmptyCartesianProduct":
+                out.append(V(prop, "run-raised", f"the run raised {ending.get('error_type')}: {strip_ids(ending.get('error') or '')[:100]}",
+                             error=ending.get("error"), traceback=ending.get("traceback")))
+        return dedup(out)
+    return check
+
+
+check_C06 = _graph_property("C06")
+check_C09 = _graph_property("C09")
+check_C16 = _graph_property("C16")
